@@ -156,7 +156,8 @@ def worker_main(argv: list[str]) -> int:
         os.sched_setaffinity(0, {cpus[widx % len(cpus)]})
     except (AttributeError, OSError):
         pass
-    faulthandler.dump_traceback_later(budget + 120, exit=True)
+    # generous: on an overloaded machine importing optuna/sqlalchemy alone can take a minute
+    faulthandler.dump_traceback_later(budget + 900, exit=True)
     check = load_check(cid)
     import optuna
 
@@ -166,6 +167,7 @@ def worker_main(argv: list[str]) -> int:
     warnings.simplefilter("ignore")
     findings = load_findings(cid)
     max_runs = int(os.environ.get("VERIF_MAX_RUNS", "0")) or None
+    check.gen_plan(seed, widx, tier)  # make sure everything is imported before the clock starts
     t0 = time.time()
     deadline = t0 + budget
     out: dict[str, Any] = {
@@ -278,7 +280,7 @@ def run_check(cid: str, tier: str) -> int:
         procs.append((subprocess.Popen(cmd, cwd=ROOT, env=env, stdout=open(os.path.join(tmp, "w%d.log" % w), "w"), stderr=subprocess.STDOUT), outfile, w))
     harness_errors: list[str] = []
     results = []
-    hard_deadline = t0 + budget + 200
+    hard_deadline = t0 + budget + 1000
     for p, outfile, w in procs:
         try:
             p.wait(timeout=max(1, hard_deadline - time.time()))
